@@ -206,11 +206,17 @@ def run_chain(chain):
     res = run_sticky(case, with_log=wl)
     rounds.append({"case": case, "sticky": res})
     gen = chain.get("gen0", 1)
+    last = {}          # member -> the claim it would still ship if it missed the following generations
     for st in chain["steps"]:
         if "exc" in res:
             break
+        for m, a in res["out"]:
+            last[m] = [gen, [[t, p] for t, ps in a for p in ps]]
         nxt = {"ppt": st["ppt"], "members": st["members"]}
         nxt["claims"] = claims_from(res["out"], st["members"], gen)
+        for idx, (m, _s) in enumerate(st["members"]):
+            if nxt["claims"][idx] is None and m in (st.get("returning") or []) and m in last:
+                nxt["claims"][idx] = last[m]
         if st.get("stale"):
             # members listed here keep shipping an older claim (they missed a generation)
             for idx, cl in st["stale"]:
